@@ -51,9 +51,9 @@ CLAIMS = {
              "descriptions, type conditions, the Variable of a definition and wrapped types are never visited; three slots out of source "
              "order; ChainedVisitor loses edits."),
     "C19": dict(
-        category="other", engine="rtc",
-        technique="run-time contract on MaxDepthValidationRule against a reference depth function over enumerated fragment distributions",
-        text="Bounded stand-in: for field chains of depth 0..4 with every assignment of wrappers (none / inline / typed inline / named spread) "
+        category="other", engine="tracecheck+rtc",
+        technique="trace contract over every path of MaxDepthValidationRule.__call__ (Engine P) + run-time contract on MaxDepthValidationRule against a reference depth function over enumerated fragment distributions",
+        text="All paths: the maximum over selected paths has a default (flat operations do not raise), an operation is reported exactly when its depth exceeds the inclusive limit, errors carry the operation node, the operation_name filter skips other operations. Bounded stand-in: for field chains of depth 0..4 with every assignment of wrappers (none / inline / typed inline / named spread) "
              "per level, side branches, @skip at each level under both variable values, multi-operation documents, limits 0..5 and every "
              "operation filter: the errors name exactly the operations whose reference depth exceeds the limit and nothing is raised.",
         note="Not a proof (generator pipeline over selected_fields). Reference depth function written from the property statement."),
@@ -123,9 +123,9 @@ CLAIMS = {
         note=BND + "Trusted: vf/ref_sdl.closed / snapshot. The heal loop (fix_type_references <-> _replace_types_and_directives) mutates object graphs through "
              "visitors and is outside the VC generator's subset."),
     "C15": dict(
-        category="other", engine="rtc",
-        technique="run-time contract: introspection result == schema objects member by member; defaultValue parses and coerces back to the declared default",
-        text="Bounded: SDL-built and code-built schemas (defaults of every kind, deprecations, custom directives) x the standard introspection query "
+        category="other", engine="tracecheck+rtc",
+        technique="trace contract over every path of _format_default_value (Engine P) + run-time contract: introspection result == schema objects member by member; defaultValue parses and coerces back to the declared default",
+        text="All paths: defaultValue is null exactly without a declared default; a declared default is rendered by printing the value node of the declared type - except string defaults of scalar type, which are wrapped in quotes unescaped (the listed finding, reproduced as the one failing path). Bounded: SDL-built and code-built schemas (defaults of every kind, deprecations, custom directives) x the standard introspection query "
              "with and without descriptions, includeDeprecated true / false / default and the disable switch: kinds, names, descriptions, wrapped type "
              "chains, fields, arguments, input fields, enum values, interfaces, possible types, directives and locations, roots and deprecations equal "
              "the schema; every defaultValue is GraphQL text that coerces back to the declared default.",
